@@ -35,8 +35,10 @@ def specs(repo):
     S['excelutil'] = dict(
         pymod='pycel.excelutil', path=os.path.join(src, 'excelutil.py'),
         consts=EXCELUTIL_CONSTS,
-        funcs=[],
+        funcs=['is_address', 'is_number', 'is_array_arg', 'list_like', 'coerce_to_number', 'coerce_to_string',
+               'type_cmp_value'],
         libcalls={},
+        fuel={'coerce_to_number': 'py_fuel'},
     )
     S['engineering'] = dict(
         pymod='pycel.lib.engineering', path=os.path.join(src, 'lib', 'engineering.py'),
